@@ -319,23 +319,24 @@ def _so_pre(kind):
 
 
 def _so_native(modname, clsname, kind):
-    def native(c, p):
+    """(object builder, call) of the history harness: one binner object serves several spectra; the attributes the
+    contract describes are set from the current inputs at every call, anything else the object keeps is its own"""
+    def obj(c, p):
         import importlib
-        import numpy as np
         K = getattr(importlib.import_module(modname), clsname)
-        o = K.__new__(K)
+        return K.__new__(K)
+
+    def call(c, o, p):
+        import numpy as np
         for k, v in p['self'].items():
             if k != '__obj__':
                 setattr(o, k, np.array(v, dtype=float))
         wn, flux, tau = (np.array(x, dtype=float) for x in p['model_output'][:3])
-
-        class _Tagged(str):
-            pass
         o.bindown = lambda g, s, grid_width=None, error=None: ('<grid>', 'binned:flux' if s is flux else ('binned:tau' if s is tau else 'binned:?'), None, None)
         r = o.generate_spectrum_output((wn, flux, tau, None), output_size=p['output_size'])
         q = dict(p, model_output=(wn, flux, tau, None))
         return r, q
-    return native
+    return obj, call
 
 
 def _so_gen(kind):
@@ -353,7 +354,8 @@ for _mod, _cls, _kind, _attrs in (('binner', 'Binner', 'base', {}),
                                   ('simplebinner', 'SimpleBinner', 'simple', {'_wngrid': lambda c, B: c.array('g', (B,)), '_wn_width': lambda c, B: c.array('w', (B,))}),
                                   ('nativebinner', 'NativeBinner', 'native', {})):
     Unit('C16', BN + '%s:%s.generate_spectrum_output' % (_mod, _cls), _so_params(_cls, **_attrs), pre=_so_pre(_kind), post=_so_post(_kind),
-         cases=_OS_CASES, bounds=[dict(N=2, B=1, n=1)], abstract={'call:bindown': _h_bindown}, native=_so_native('taurex.binning.' + _mod, _cls, _kind),
+         cases=_OS_CASES, bounds=[dict(N=2, B=1, n=1)], abstract={'call:bindown': _h_bindown}, native_obj=_so_native('taurex.binning.' + _mod, _cls, _kind)[0],
+         native_call=_so_native('taurex.binning.' + _mod, _cls, _kind)[1],
          gen=_so_gen(_kind), inline=['generate_spectrum_output'], short='%s.generate_spectrum_output' % _cls, safety=('index',),
          doc='stored spectra describe themselves consistently (%s binner); bindown abstract (C05), compute_bin_edges / '
              'wnwidth_to_wlwidth by contract' % _kind)
